@@ -20,6 +20,11 @@ for root, dirs, files in os.walk(os.path.join(repo, ".hypothesis", "examples")):
         fp = os.path.join(root, f)
         if os.path.getmtime(fp) >= t_start - 1:
             os.remove(fp)
+# files the tests leave in the working tree (untracked and created by this run)
+for rel in subprocess.run(["git", "-C", repo, "ls-files", "--others", "--exclude-standard"], capture_output=True, text=True).stdout.split("\n"):
+    fp = os.path.join(repo, rel)
+    if rel and os.path.isfile(fp) and os.path.getmtime(fp) >= t_start - 1:
+        os.remove(fp)
 base = json.load(open("/root/.vp/BASELINE.json"))
 stable = set(base["stable_pass"])
 missing = sorted(stable - passed)
